@@ -92,6 +92,12 @@ pub fn cfg_for(driver: &str, tier: &str) -> Option<(Cfg, u32)> {
             c.top_cause2 = false;
             c.top_advance = true;
             c.update_disabled = true;
+            // a callback may re-program the other source's timer (set_deadline + update): an
+            // update() that is silently dropped shows as a timer that does not fire when due
+            c.cb_set_deadline = vec![-1];
+            // every operation here is issued from inside a callback: whatever goes wrong is also a
+            // C08 verdict ("has the effect it would have outside a dispatch")
+            c.tag_all = Some("C08");
             c.prune = true;
             c.final_dispatches = 1;
             (c, if q { 2 } else { 3 })
